@@ -1316,3 +1316,6 @@ REQUIRED_PROBES = {
                        'include-on-first-line', 'include-on-last-line',
                        'nested-include-present'],
 }
+
+
+RULE_MORE = {'C12': ' Added in the build rounds: home-relative (~), `;`-carrying, backslash and high-byte spellings, paren-less require forms, eleven CLI routes that load carts, case-variant siblings, a directory literally named ~, a pico-8/carts tree below cwd, warm-up loads/builds earlier in the process (same-named cart elsewhere, a load failing half-way one level up, another HOME, an explicit --lua-path that must not outlive its build).', 'C20': ' Added in the build rounds: target names with extension-like parts, header versions 1-41 of included carts, a project inside the carts folder with same-named decoys above it, cart directory reached through a symbolic link, a load that fails inside an included cart first, a same-named cart loaded elsewhere first, debug verbosity left on, `p8tool listlua good cart`, and a build over the including cart.'}
